@@ -318,7 +318,8 @@ def gen_saturate(rng, algo, gen='G-sim-saturate'):
         ops = []
         for _ in range(nops):
             r = rng.random()
-            mem = share * (rng.choice([0.25, 0.5, 1.0]) if r < 0.7 else rng.choice([1.5, 2.0]) if r < 0.92 else rng.choice([3.0, 6.0]))
+            mem = share * (rng.choice([0.25, 0.5, 1.0]) if r < 0.7 else rng.choice([1.5, 2.0]) if r < 0.92 else
+                           rng.choice([3.0, 6.0] if algo not in ('naive', 'starter') else [6.0, 12.0, 15.0]))   # naive hands out whole pools
             ops.append([dict(baseline_cpu_seconds=float(rng.randint(2, 9)) / tps, cpu_scaling='const',
                              storage_read_gb=0.0, memory_gb=float(mem))])
         segs.append(ops)
